@@ -179,6 +179,43 @@ def rule_r1(chk, p, t):
             r.violation(w.qualname + ":result", f"result:{sorted(kws.items())}", "reward job result slots are mixed up", w.loc())
 
     r.guard(w.qualname, three)
+
+    def four_mask_fresh():
+        """The visibility mask (and the metric rows the rewards come from) used in a step are the ones computed in that
+        step.  They are either re-created (`zeros`) on every path of assess() before the reward jobs run, or every row is
+        rewritten by its reward job's processResults on every path; when neither holds, a target that dropped out of
+        every sensor's view keeps last step's row and `decision & visibility` no longer removes the pair."""
+        from rsa.cfg import cfg_of
+
+        eng = p.cls("resonaate.tasking.engine.centralized_engine.CentralizedTaskingEngine")
+        assess = eng.methods.get("assess")
+        reg = p.cls("resonaate.parallel.tasking_reward_generation.TaskingRewardRegistration")
+        pr = reg.methods.get("processResults")
+        require(assess is not None and pr is not None, "assess / processResults not found", eng.node)
+        cfg_a = cfg_of(assess)
+        first_job = [n.id for n in cfg_a.nodes if n.ast is not None and n.kind in ("stmt", "loop", "cond") and any(isinstance(c, ast.Call) and call_name(c) in ("enqueueJob", "generateTasking", "calculateRewards") for c in ast.walk(n.ast))]
+        stale = {}
+        for fld in ("visibility_matrix", "metric_matrix"):
+            resets = [n.id for n in cfg_a.nodes if n.kind == "stmt" and isinstance(n.ast, ast.Assign) and any(unparse(tg) == f"self.{fld}" for tg in n.ast.targets) and isinstance(n.ast.value, ast.Call) and call_name(n.ast.value) in ("zeros", "zeros_like", "full")]
+            fresh = bool(resets) and bool(first_job) and all(cfg_a.must_pass(j, via_nodes=resets) for j in first_job)
+            cfg_p = cfg_of(pr)
+            writes = [n.id for n in cfg_p.nodes if n.kind == "stmt" and isinstance(n.ast, ast.Assign) and any(isinstance(tg, ast.Subscript) and unparse(tg.value).endswith(f".{fld}") for tg in n.ast.targets)]
+            always = bool(writes) and cfg_p.must_pass(cfg_p.exit.id, via_nodes=writes)
+            stale[fld] = (fresh, always)
+        bad = [f for f, (fresh, always) in stale.items() if not fresh and not always]
+        if bad:
+            r.violation(
+                assess.qualname + ":mask-freshness",
+                "stale-rows:" + ",".join(bad),
+                f"{', '.join(bad)}: not re-created on every path of assess() before the reward jobs run, and "
+                "TaskingRewardRegistration.processResults does not rewrite the target's row on every path - a target that no sensor sees any more keeps "
+                "last step's row, so a sensor can be tasked to a target it cannot see now (and rewards of unseen pairs stay non-zero)",
+                assess.loc(),
+            )
+        else:
+            r.ok(assess.qualname + ":mask-freshness", "; ".join(f"{f}: " + ("re-created every step" if fr else "every row rewritten by its job") for f, (fr, al) in stale.items()), assess.loc())
+
+    r.guard("mask-freshness", four_mask_fresh)
     _ = ea
 
 
